@@ -64,7 +64,7 @@ def gen_params(name, rng, spec, nsamps_sel) -> dict:
             mask[0] = True
             mask[-1] = True
         top = (1 << nbits) - 1 if nbits < 32 else 1000
-        return {"mask": mask, "mask_value": rng.choice([0, 1, top, rng.randint(0, top)])}
+        return {"mask": mask, "mask_value": rng.choice([0, 1, top, rng.randint(0, top)] + ([-1.5, 2.75, -100.0] if nbits == 32 else []))}
     if name == "extract_chans":
         k = rng.randint(1, nchans)
         chans = rng.sample(range(nchans), k)
